@@ -152,11 +152,67 @@ Forms == {
   [name |-> "delete-all", toks |-> <<"DELETE", "FROM", "t">>, tree |-> [T |-> "DeleteStatement", TableName |-> "t"]]
 }
 
+\* ---- ORDER BY lists: every list of 1..3 items x direction x NULLS placement, in the four places a list may stand ----
+Dirs == {"", "ASC", "DESC"}
+NullsKinds == {"none", "first", "last"}
+ItemKinds == [dir : Dirs, nulls : NullsKinds]
+OrderLists == UNION {[1..n -> ItemKinds] : n \in 1..3}
+OrderCtx == {"select", "window", "aggregate", "within-group"}
+ItemName(i) == <<"a", "b", "c">>[i]
+ItemToks(i, k) == <<ItemName(i)>> \o (IF k.dir = "" THEN <<>> ELSE <<k.dir>>)
+                     \o (CASE k.nulls = "first" -> <<"NULLS", "FIRST">> [] k.nulls = "last" -> <<"NULLS", "LAST">> [] OTHER -> <<>>)
+ListToks(l) == ItemToks(1, l[1]) \o (IF Len(l) > 1 THEN <<",">> \o ItemToks(2, l[2]) ELSE <<>>)
+                                 \o (IF Len(l) > 2 THEN <<",">> \o ItemToks(3, l[3]) ELSE <<>>)
+ListTree(l) == [i \in 1..Len(l) |-> OrderItem(Id(ItemName(i)), l[i].dir # "DESC", l[i].nulls)]
+OrderToks(cx, l) ==
+    CASE cx = "select" -> S1t \o <<"ORDER", "BY">> \o ListToks(l)
+      [] cx = "window" -> <<"SELECT", "SUM", "(", "a", ")", "OVER", "(", "ORDER", "BY">> \o ListToks(l) \o <<")", "FROM", "t">>
+      [] cx = "aggregate" -> <<"SELECT", "STRING_AGG", "(", "a", ",", "','", "ORDER", "BY">> \o ListToks(l) \o <<")", "FROM", "t">>
+      [] cx = "within-group" -> <<"SELECT", "PERCENTILE_CONT", "(", "0.5", ")", "WITHIN", "GROUP", "(", "ORDER", "BY">> \o ListToks(l) \o <<")", "FROM", "t">>
+OrderTree(cx, l) ==
+    CASE cx = "select" -> S1 @@ [OrderBy |-> ListTree(l)]
+      [] cx = "window" -> [S1 EXCEPT !.Columns = <<[T |-> "FunctionCall", Name |-> "SUM", Arguments |-> <<Id("a")>>,
+                                                    Over |-> [T |-> "WindowSpec", OrderBy |-> ListTree(l)]]>>]
+      [] cx = "aggregate" -> [S1 EXCEPT !.Columns = <<[T |-> "FunctionCall", Name |-> "STRING_AGG", Arguments |-> <<Id("a"), StrLit(",")>>,
+                                                       OrderBy |-> ListTree(l)]>>]
+      [] cx = "within-group" -> [S1 EXCEPT !.Columns = <<[T |-> "FunctionCall", Name |-> "PERCENTILE_CONT",
+                                                          Arguments |-> <<[T |-> "LiteralValue", Value |-> "0.5", Type |-> "float"]>>,
+                                                          WithinGroup |-> ListTree(l)]>>]
+
+\* ---- row limiting and locking tails: OFFSET n ROWS, FETCH FIRST|NEXT n [PERCENT] ROWS ONLY|WITH TIES,
+\*      FOR UPDATE|SHARE|NO KEY UPDATE|KEY SHARE [OF tables] [NOWAIT|SKIP LOCKED] ------------------------------
+FetchKinds == {"none", "first", "next", "ties", "percent"}
+LockKinds == {"UPDATE", "SHARE", "NO KEY UPDATE", "KEY SHARE"}
+TailCfg == [offset : BOOLEAN, fetch : FetchKinds, lock : LockKinds \cup {"none"}, of : 0..2, wait : {"none", "NOWAIT", "SKIP LOCKED"}]
+ValidTail(c) == (c.lock = "none" => (c.of = 0 /\ c.wait = "none")) /\ (c.offset \/ c.fetch # "none" \/ c.lock # "none")
+TailToks(c) ==
+    S1t \o (IF c.offset THEN <<"OFFSET", "2", "ROWS">> ELSE <<>>)
+        \o (CASE c.fetch = "first" -> <<"FETCH", "FIRST", "5", "ROWS", "ONLY">>
+               [] c.fetch = "next" -> <<"FETCH", "NEXT", "5", "ROWS", "ONLY">>
+               [] c.fetch = "ties" -> <<"FETCH", "FIRST", "5", "ROWS", "WITH", "TIES">>
+               [] c.fetch = "percent" -> <<"FETCH", "FIRST", "5", "PERCENT", "ROWS", "ONLY">>
+               [] OTHER -> <<>>)
+        \o (IF c.lock = "none" THEN <<>> ELSE <<"FOR", c.lock>>)
+        \o (CASE c.of = 1 -> <<"OF", "t">> [] c.of = 2 -> <<"OF", "t", ",", "u">> [] OTHER -> <<>>)
+        \o (IF c.wait = "none" THEN <<>> ELSE <<c.wait>>)
+TailTree(c) ==
+    LET fbase == [T |-> "FetchClause", FetchValue |-> 5, FetchType |-> (IF c.fetch = "next" THEN "NEXT" ELSE "FIRST")]
+        f == CASE c.fetch = "ties" -> fbase @@ [WithTies |-> TRUE] [] c.fetch = "percent" -> fbase @@ [IsPercent |-> TRUE] [] OTHER -> fbase
+        l0 == [T |-> "ForClause", LockType |-> c.lock]
+        l1 == CASE c.of = 1 -> l0 @@ [Tables |-> <<"t">>] [] c.of = 2 -> l0 @@ [Tables |-> <<"t", "u">>] [] OTHER -> l0
+        l == CASE c.wait = "NOWAIT" -> l1 @@ [NoWait |-> TRUE] [] c.wait = "SKIP LOCKED" -> l1 @@ [SkipLocked |-> TRUE] [] OTHER -> l1
+        t1 == IF c.offset THEN S1 @@ [Offset |-> 2] ELSE S1
+        t2 == IF c.fetch = "none" THEN t1 ELSE t1 @@ [Fetch |-> f]
+    IN IF c.lock = "none" THEN t2 ELSE t2 @@ [For |-> l]
+
 VARIABLES case, done
 vars == <<case, done>>
 Init == /\ done = FALSE
         /\ \/ \E c \in SelectCfg : ValidSelect(c) /\ case = [name |-> "select", cfg |-> c, toks |-> SelToks(c), tree |-> SelTree(c)]
            \/ \E f \in Forms : case = [name |-> f.name, cfg |-> <<>>, toks |-> f.toks, tree |-> f.tree]
+           \/ \E c \in TailCfg : ValidTail(c) /\ case = [name |-> "tail", cfg |-> c, toks |-> TailToks(c), tree |-> TailTree(c)]
+           \/ \E cx \in OrderCtx, l \in OrderLists :
+                 case = [name |-> "order-" \o cx, cfg |-> l, toks |-> OrderToks(cx, l), tree |-> OrderTree(cx, l)]
 Run == /\ ~done /\ done' = TRUE /\ UNCHANGED case
        /\ Emit => PrintT(ToJson([name |-> case.name, toks |-> case.toks, tree |-> case.tree]))
 Spec == Init /\ [][Run]_vars
@@ -168,4 +224,13 @@ ClauseIffField == (case.name = "select") =>
     /\ (Tok("WHERE") <=> Has("Where")) /\ (Tok("GROUP") <=> Has("GroupBy")) /\ (Tok("HAVING") <=> Has("Having"))
     /\ (Tok("ORDER") <=> Has("OrderBy")) /\ (Tok("LIMIT") <=> Has("Limit")) /\ (Tok("OFFSET") <=> Has("Offset"))
     /\ (Tok("DISTINCT") <=> Has("Distinct")) /\ (Tok("ON") => Has("Joins"))
+\* an order item carries a NULLS placement exactly when one was written for that item, and a direction flag
+\* exactly when DESC was not written
+OrderItemLaw == (case.name = "order-select") =>
+    \A i \in 1..Len(case.cfg) :
+        /\ (("NullsFirst" \in DOMAIN case.tree.OrderBy[i]) <=> (case.cfg[i].nulls # "none"))
+        /\ (("Ascending" \in DOMAIN case.tree.OrderBy[i]) <=> (case.cfg[i].dir # "DESC"))
+TailLaw == (case.name = "tail") =>
+    /\ (Tok("FETCH") <=> Has("Fetch")) /\ (Tok("FOR") <=> Has("For")) /\ (Tok("OFFSET") <=> Has("Offset"))
+    /\ (Tok("OF") <=> (Has("For") /\ "Tables" \in DOMAIN case.tree.For))
 =============================================================================
